@@ -28,7 +28,7 @@ def main(argv=None):
     if a.replay:
         fails, v = runner.replay_file(a.replay)
         if a.json:
-            print("REPLAY-JSON " + json.dumps({"fails": fails, "observed": (v or {}).get("observed"), "step": (v or {}).get("step")}, default=str))
+            print("REPLAY-JSON " + json.dumps({"fails": fails, "observed": (v or {}).get("observed"), "step": (v or {}).get("step"), "clause": (v or {}).get("clause")}, default=str))
         else:
             with open(a.replay) as f:
                 rp = json.load(f)
